@@ -2184,6 +2184,10 @@ class DimensionConvention(Convention[GridKind, Index]):
         dimensions = self.grid_dimensions[grid_kind]
         # This array will have shape (len(indexes), len(dimensions))
         index_array = numpy.array(index_tuples)
+        # `isel` counts negative positions from the end of the dimension,
+        # a negative index would silently select some other cell
+        if (index_array < 0).any():
+            raise ValueError("Indexes must not be negative")
         return xarray.Dataset({
             dimension: (index_dimension, index_array[:, i])
             for i, dimension in enumerate(dimensions)
